@@ -141,10 +141,10 @@ def is_sorted(recs):
 # ---------------------------------------------------------------------------------------------
 
 class PosInfo:
-    __slots__ = ("fen", "key", "legal")
+    __slots__ = ("fen", "key", "legal", "incheck", "idx")
 
-    def __init__(self, fen, key, legal):
-        self.fen, self.key, self.legal = fen, key, legal
+    def __init__(self, fen, key, legal, incheck=False):
+        self.fen, self.key, self.legal, self.incheck, self.idx = fen, key, legal, incheck, -1
 
 
 def position_pool(ctx, quick, randoms):
@@ -185,7 +185,7 @@ def position_pool(ctx, quick, randoms):
             continue
         moves = lg.split()[1:]
         if moves:
-            pool.append(PosInfo(f, int(ky, 16), moves))
+            pool.append(PosInfo(f, int(ky, 16), moves, lg.split()[0] == "1")); pool[-1].idx = len(pool) - 1
             ctx.distinct(("pos", f))
     return pool
 
@@ -229,7 +229,8 @@ def build_book(ctx, pool, castlers, promoters):
     chosen = []
     for _ in range(npos):
         x = r.random()
-        src = castlers if (x < 0.3 and castlers) else promoters if (x < 0.4 and promoters) else pool
+        checked = [p for p in pool if p.incheck]
+        src = castlers if (x < 0.3 and castlers) else promoters if (x < 0.4 and promoters) else checked if (x < 0.55 and checked) else pool
         chosen.append(r.choice(src))
     chosen = list({p.key: p for p in chosen}.values())
     recs = []
@@ -247,8 +248,13 @@ def build_book(ctx, pool, castlers, promoters):
             if r.random() < 0.08 and m in ("e1g1", "e1c1", "e8g8", "e8c8"):
                 mv = (mv & ~7) | (sqn(m[2:4]) % 8)                   # non-standard literal king destination
             recs.append((p.key, mv, w, r.getrandbits(32) if r.random() < 0.3 else 0))
-        if r.random() < 0.12:                                       # a hash collision: a move that is not legal here
+        if r.random() < (0.5 if p.incheck else 0.12):               # a hash collision: a move that is not legal here
             bad = r.getrandbits(15)
+            # ... preferably one that obeys the movement rules: a legal move of a neighbouring position of the same game with the
+            # same side to move (in a position with the king in check most of those ignore the check)
+            nb = [pool[j] for j in (p.idx - 2, p.idx + 2, p.idx - 4, p.idx + 4) if 0 <= j < len(pool) and pool[j].fen.split()[1] == p.fen.split()[1]]
+            cand = [m for q in nb for m in q.legal if m not in p.legal]
+            if cand and r.random() < 0.8: bad = enc_move(p.fen, r.choice(cand))
             recs.append((p.key, bad, r.randrange(1, 100), 0))
     for _ in range(r.choice([0, 0, 2, 5, 20])):                     # unrelated records around them
         recs.append((r.getrandbits(64), r.getrandbits(16), r.getrandbits(16), 0))
